@@ -13,7 +13,7 @@ variable {K : Type} [Field K] [LinearOrder K] [IsStrictOrderedRing K]
 
 /-- Segment.tangentAtTime on a CubicBezier -/
 
-def cubic_tangentAtTime (sqrt : K → K) (p0x p0y p1x p1y p2x p2y p3x p3y t : K) : List K :=
+@[gen_def] def cubic_tangentAtTime (sqrt : K → K) (p0x p0y p1x p1y p2x p2y p3x p3y t : K) : List K :=
   if (sqrt ((((((((1 : K) - t) * ((1 : K) - t)) * ((p1x - p0x) * (3 : K))) + ((((2 : K) * ((1 : K) - t)) * t) * ((p2x - p1x) * (3 : K)))) + ((t * t) * ((p3x - p2x) * (3 : K)))) * ((((((1 : K) - t) * ((1 : K) - t)) * ((p1x - p0x) * (3 : K))) + ((((2 : K) * ((1 : K) - t)) * t) * ((p2x - p1x) * (3 : K)))) + ((t * t) * ((p3x - p2x) * (3 : K))))) + (((((((1 : K) - t) * ((1 : K) - t)) * ((p1y - p0y) * (3 : K))) + ((((2 : K) * ((1 : K) - t)) * t) * ((p2y - p1y) * (3 : K)))) + ((t * t) * ((p3y - p2y) * (3 : K)))) * ((((((1 : K) - t) * ((1 : K) - t)) * ((p1y - p0y) * (3 : K))) + ((((2 : K) * ((1 : K) - t)) * t) * ((p2y - p1y) * (3 : K)))) + ((t * t) * ((p3y - p2y) * (3 : K))))))) = (0 : K) then
     let v0 := ((1 : K) - t)
     let v1 := (((2 : K) * v0) * t)
@@ -29,7 +29,7 @@ def cubic_tangentAtTime (sqrt : K → K) (p0x p0y p1x p1y p2x p2y p3x p3y t : K)
 
 /-- Segment.tangentAtTime on a QuadraticBezier -/
 
-def quad_tangentAtTime (sqrt : K → K) (p0x p0y p1x p1y p2x p2y t : K) : List K :=
+@[gen_def] def quad_tangentAtTime (sqrt : K → K) (p0x p0y p1x p1y p2x p2y t : K) : List K :=
   if (sqrt ((((((p1x - p0x) * (2 : K)) * ((1 : K) - t)) + (((p2x - p1x) * (2 : K)) * t)) * ((((p1x - p0x) * (2 : K)) * ((1 : K) - t)) + (((p2x - p1x) * (2 : K)) * t))) + (((((p1y - p0y) * (2 : K)) * ((1 : K) - t)) + (((p2y - p1y) * (2 : K)) * t)) * ((((p1y - p0y) * (2 : K)) * ((1 : K) - t)) + (((p2y - p1y) * (2 : K)) * t))))) = (0 : K) then
     let v0 := ((1 : K) - t)
     [(((((p1x - p0x) * (2 : K)) * v0) + (((p2x - p1x) * (2 : K)) * t)) / (1 : K)), (((((p1y - p0y) * (2 : K)) * v0) + (((p2y - p1y) * (2 : K)) * t)) / (1 : K))]
@@ -43,7 +43,7 @@ def quad_tangentAtTime (sqrt : K → K) (p0x p0y p1x p1y p2x p2y t : K) : List K
 
 /-- Segment.normalAtTime on a CubicBezier -/
 
-def cubic_normalAtTime (sqrt : K → K) (p0x p0y p1x p1y p2x p2y p3x p3y t : K) : List K :=
+@[gen_def] def cubic_normalAtTime (sqrt : K → K) (p0x p0y p1x p1y p2x p2y p3x p3y t : K) : List K :=
   if (sqrt ((((((((1 : K) - t) * ((1 : K) - t)) * ((p1x - p0x) * (3 : K))) + ((((2 : K) * ((1 : K) - t)) * t) * ((p2x - p1x) * (3 : K)))) + ((t * t) * ((p3x - p2x) * (3 : K)))) * ((((((1 : K) - t) * ((1 : K) - t)) * ((p1x - p0x) * (3 : K))) + ((((2 : K) * ((1 : K) - t)) * t) * ((p2x - p1x) * (3 : K)))) + ((t * t) * ((p3x - p2x) * (3 : K))))) + (((((((1 : K) - t) * ((1 : K) - t)) * ((p1y - p0y) * (3 : K))) + ((((2 : K) * ((1 : K) - t)) * t) * ((p2y - p1y) * (3 : K)))) + ((t * t) * ((p3y - p2y) * (3 : K)))) * ((((((1 : K) - t) * ((1 : K) - t)) * ((p1y - p0y) * (3 : K))) + ((((2 : K) * ((1 : K) - t)) * t) * ((p2y - p1y) * (3 : K)))) + ((t * t) * ((p3y - p2y) * (3 : K))))))) = (0 : K) then
     let v0 := ((1 : K) - t)
     let v1 := (((2 : K) * v0) * t)
@@ -59,7 +59,7 @@ def cubic_normalAtTime (sqrt : K → K) (p0x p0y p1x p1y p2x p2y p3x p3y t : K) 
 
 /-- Segment.normalAtTime on a QuadraticBezier -/
 
-def quad_normalAtTime (sqrt : K → K) (p0x p0y p1x p1y p2x p2y t : K) : List K :=
+@[gen_def] def quad_normalAtTime (sqrt : K → K) (p0x p0y p1x p1y p2x p2y t : K) : List K :=
   if (sqrt ((((((p1x - p0x) * (2 : K)) * ((1 : K) - t)) + (((p2x - p1x) * (2 : K)) * t)) * ((((p1x - p0x) * (2 : K)) * ((1 : K) - t)) + (((p2x - p1x) * (2 : K)) * t))) + (((((p1y - p0y) * (2 : K)) * ((1 : K) - t)) + (((p2y - p1y) * (2 : K)) * t)) * ((((p1y - p0y) * (2 : K)) * ((1 : K) - t)) + (((p2y - p1y) * (2 : K)) * t))))) = (0 : K) then
     let v0 := ((1 : K) - t)
     [(-(((((p1y - p0y) * (2 : K)) * v0) + (((p2y - p1y) * (2 : K)) * t)) / (1 : K))), (((((p1x - p0x) * (2 : K)) * v0) + (((p2x - p1x) * (2 : K)) * t)) / (1 : K))]
@@ -73,7 +73,7 @@ def quad_normalAtTime (sqrt : K → K) (p0x p0y p1x p1y p2x p2y t : K) : List K 
 
 /-- CubicBezier.curvatureAtTime -/
 
-def cubic_curvatureAtTime_v (rpow : K → K → K) (p0x p0y p1x p1y p2x p2y p3x p3y t : K) : K :=
+@[gen_def] def cubic_curvatureAtTime_v (rpow : K → K → K) (p0x p0y p1x p1y p2x p2y p3x p3y t : K) : K :=
   let v0 := ((1 : K) - t)
   let v1 := ((p1x - p0x) * (3 : K))
   let v2 := (((2 : K) * v0) * t)
@@ -86,25 +86,25 @@ def cubic_curvatureAtTime_v (rpow : K → K → K) (p0x p0y p1x p1y p2x p2y p3x 
   let v9 := ((((v0 * v0) * v7) + (v2 * v6)) + ((t * t) * v8))
   (((v5 * ((((v6 - v7) * (2 : K)) * v0) + (((v8 - v6) * (2 : K)) * t))) - (v9 * ((((v3 - v1) * (2 : K)) * v0) + (((v4 - v3) * (2 : K)) * t)))) / (rpow ((v5 ^ (2 : ℕ)) + (v9 ^ (2 : ℕ))) ((3 : K) / 2)))
 
-def cubic_curvatureAtTime (rpow : K → K → K) (p0x p0y p1x p1y p2x p2y p3x p3y t : K) : List K :=
+@[gen_def] def cubic_curvatureAtTime (rpow : K → K → K) (p0x p0y p1x p1y p2x p2y p3x p3y t : K) : List K :=
   [cubic_curvatureAtTime_v rpow p0x p0y p1x p1y p2x p2y p3x p3y t]
 
 
 /-- QuadraticBezier.curvatureAtTime -/
 
-def quad_curvatureAtTime_v (rpow : K → K → K) (p0x p0y p1x p1y p2x p2y t : K) : K :=
+@[gen_def] def quad_curvatureAtTime_v (rpow : K → K → K) (p0x p0y p1x p1y p2x p2y t : K) : K :=
   let v0 := ((1 : K) - t)
   let v1 := ((((p1x - p0x) * (2 : K)) * v0) + (((p2x - p1x) * (2 : K)) * t))
   let v2 := ((((p1y - p0y) * (2 : K)) * v0) + (((p2y - p1y) * (2 : K)) * t))
   (((v1 * (p2y - p0y)) - (v2 * (p2x - p0x))) / (rpow ((v1 ^ (2 : ℕ)) + (v2 ^ (2 : ℕ))) ((3 : K) / 2)))
 
-def quad_curvatureAtTime (rpow : K → K → K) (p0x p0y p1x p1y p2x p2y t : K) : List K :=
+@[gen_def] def quad_curvatureAtTime (rpow : K → K → K) (p0x p0y p1x p1y p2x p2y t : K) : List K :=
   [quad_curvatureAtTime_v rpow p0x p0y p1x p1y p2x p2y t]
 
 
 /-- Line.tangentAtTime -/
 
-def line_tangentAtTime (sqrt : K → K) (cos : K → K) (sin : K → K) (atan2 : K → K → K) (p0x p0y p1x p1y t : K) : List K :=
+@[gen_def] def line_tangentAtTime (sqrt : K → K) (cos : K → K) (sin : K → K) (atan2 : K → K → K) (p0x p0y p1x p1y t : K) : List K :=
   if (sqrt (((cos (atan2 (p1y - p0y) (p1x - p0x))) * (cos (atan2 (p1y - p0y) (p1x - p0x)))) + ((sin (atan2 (p1y - p0y) (p1x - p0x))) * (sin (atan2 (p1y - p0y) (p1x - p0x)))))) = (0 : K) then
     let v0 := (atan2 (p1y - p0y) (p1x - p0x))
     [((cos v0) / (1 : K)), ((sin v0) / (1 : K))]
@@ -116,7 +116,7 @@ def line_tangentAtTime (sqrt : K → K) (cos : K → K) (sin : K → K) (atan2 :
 
 /-- Line.normalAtTime -/
 
-def line_normalAtTime (sqrt : K → K) (cos : K → K) (sin : K → K) (atan2 : K → K → K) (p0x p0y p1x p1y t : K) : List K :=
+@[gen_def] def line_normalAtTime (sqrt : K → K) (cos : K → K) (sin : K → K) (atan2 : K → K → K) (p0x p0y p1x p1y t : K) : List K :=
   if (sqrt (((cos (atan2 (p1y - p0y) (p1x - p0x))) * (cos (atan2 (p1y - p0y) (p1x - p0x)))) + ((sin (atan2 (p1y - p0y) (p1x - p0x))) * (sin (atan2 (p1y - p0y) (p1x - p0x)))))) = (0 : K) then
     if (sqrt (((cos ((atan2 ((0 : K) - ((sin (atan2 (p1y - p0y) (p1x - p0x))) / (1 : K))) ((0 : K) - ((cos (atan2 (p1y - p0y) (p1x - p0x))) / (1 : K)))) + ((7853981633974483 : K) / 5000000000000000))) * (cos ((atan2 ((0 : K) - ((sin (atan2 (p1y - p0y) (p1x - p0x))) / (1 : K))) ((0 : K) - ((cos (atan2 (p1y - p0y) (p1x - p0x))) / (1 : K)))) + ((7853981633974483 : K) / 5000000000000000)))) + ((sin ((atan2 ((0 : K) - ((sin (atan2 (p1y - p0y) (p1x - p0x))) / (1 : K))) ((0 : K) - ((cos (atan2 (p1y - p0y) (p1x - p0x))) / (1 : K)))) + ((7853981633974483 : K) / 5000000000000000))) * (sin ((atan2 ((0 : K) - ((sin (atan2 (p1y - p0y) (p1x - p0x))) / (1 : K))) ((0 : K) - ((cos (atan2 (p1y - p0y) (p1x - p0x))) / (1 : K)))) + ((7853981633974483 : K) / 5000000000000000)))))) = (0 : K) then
       let v0 := (atan2 (p1y - p0y) (p1x - p0x))
@@ -155,64 +155,64 @@ def line_normalAtTime (sqrt : K → K) (cos : K → K) (sin : K → K) (atan2 : 
 
 /-- Line.curvatureAtTime -/
 
-def line_curvatureAtTime_v (p0x p0y p1x p1y t : K) : K :=
+@[gen_def] def line_curvatureAtTime_v (p0x p0y p1x p1y t : K) : K :=
   ((2220446049250313 : K) / 10000000000000000000000000000000)
 
-def line_curvatureAtTime (p0x p0y p1x p1y t : K) : List K :=
+@[gen_def] def line_curvatureAtTime (p0x p0y p1x p1y t : K) : List K :=
   [line_curvatureAtTime_v p0x p0y p1x p1y t]
 
 
 /-- Segment.startAngle on a CubicBezier -/
 
-def cubic_startAngle_v (atan2 : K → K → K) (p0x p0y p1x p1y p2x p2y p3x p3y : K) : K :=
+@[gen_def] def cubic_startAngle_v (atan2 : K → K → K) (p0x p0y p1x p1y p2x p2y p3x p3y : K) : K :=
   (atan2 (p1y - p0y) (p1x - p0x))
 
-def cubic_startAngle (atan2 : K → K → K) (p0x p0y p1x p1y p2x p2y p3x p3y : K) : List K :=
+@[gen_def] def cubic_startAngle (atan2 : K → K → K) (p0x p0y p1x p1y p2x p2y p3x p3y : K) : List K :=
   [cubic_startAngle_v atan2 p0x p0y p1x p1y p2x p2y p3x p3y]
 
 
 /-- Segment.endAngle on a CubicBezier -/
 
-def cubic_endAngle_v (atan2 : K → K → K) (p0x p0y p1x p1y p2x p2y p3x p3y : K) : K :=
+@[gen_def] def cubic_endAngle_v (atan2 : K → K → K) (p0x p0y p1x p1y p2x p2y p3x p3y : K) : K :=
   (atan2 (p3y - p2y) (p3x - p2x))
 
-def cubic_endAngle (atan2 : K → K → K) (p0x p0y p1x p1y p2x p2y p3x p3y : K) : List K :=
+@[gen_def] def cubic_endAngle (atan2 : K → K → K) (p0x p0y p1x p1y p2x p2y p3x p3y : K) : List K :=
   [cubic_endAngle_v atan2 p0x p0y p1x p1y p2x p2y p3x p3y]
 
 
 /-- Segment.startAngle on a QuadraticBezier -/
 
-def quad_startAngle_v (atan2 : K → K → K) (p0x p0y p1x p1y p2x p2y : K) : K :=
+@[gen_def] def quad_startAngle_v (atan2 : K → K → K) (p0x p0y p1x p1y p2x p2y : K) : K :=
   (atan2 (p1y - p0y) (p1x - p0x))
 
-def quad_startAngle (atan2 : K → K → K) (p0x p0y p1x p1y p2x p2y : K) : List K :=
+@[gen_def] def quad_startAngle (atan2 : K → K → K) (p0x p0y p1x p1y p2x p2y : K) : List K :=
   [quad_startAngle_v atan2 p0x p0y p1x p1y p2x p2y]
 
 
 /-- Segment.endAngle on a QuadraticBezier -/
 
-def quad_endAngle_v (atan2 : K → K → K) (p0x p0y p1x p1y p2x p2y : K) : K :=
+@[gen_def] def quad_endAngle_v (atan2 : K → K → K) (p0x p0y p1x p1y p2x p2y : K) : K :=
   (atan2 (p2y - p1y) (p2x - p1x))
 
-def quad_endAngle (atan2 : K → K → K) (p0x p0y p1x p1y p2x p2y : K) : List K :=
+@[gen_def] def quad_endAngle (atan2 : K → K → K) (p0x p0y p1x p1y p2x p2y : K) : List K :=
   [quad_endAngle_v atan2 p0x p0y p1x p1y p2x p2y]
 
 
 /-- Segment.startAngle on a Line -/
 
-def line_startAngle_v (atan2 : K → K → K) (p0x p0y p1x p1y : K) : K :=
+@[gen_def] def line_startAngle_v (atan2 : K → K → K) (p0x p0y p1x p1y : K) : K :=
   (atan2 (p1y - p0y) (p1x - p0x))
 
-def line_startAngle (atan2 : K → K → K) (p0x p0y p1x p1y : K) : List K :=
+@[gen_def] def line_startAngle (atan2 : K → K → K) (p0x p0y p1x p1y : K) : List K :=
   [line_startAngle_v atan2 p0x p0y p1x p1y]
 
 
 /-- Segment.endAngle on a Line -/
 
-def line_endAngle_v (atan2 : K → K → K) (p0x p0y p1x p1y : K) : K :=
+@[gen_def] def line_endAngle_v (atan2 : K → K → K) (p0x p0y p1x p1y : K) : K :=
   (atan2 (p1y - p0y) (p1x - p0x))
 
-def line_endAngle (atan2 : K → K → K) (p0x p0y p1x p1y : K) : List K :=
+@[gen_def] def line_endAngle (atan2 : K → K → K) (p0x p0y p1x p1y : K) : List K :=
   [line_endAngle_v atan2 p0x p0y p1x p1y]
 
 
